@@ -313,6 +313,9 @@ func (x *unitCtx) call(t sym.Call) Deg {
 		return r
 	case t.Fn == "abs" && len(args) == 1:
 		return args[0]
+	case t.Fn == "trunc" && len(args) == 1:
+		u.unify(args[0], dZero(), "truncation to an integer type (a truncated quantity does not scale with its unit)")
+		return dZero()
 	case t.Fn == "sqrt" && len(args) == 1:
 		return dScale(args[0], big.NewRat(1, 2))
 	case t.Fn == "pow" && len(args) == 2:
@@ -832,7 +835,26 @@ func (a *astUnits) expr(e ast.Expr) Deg {
 		return a.expr(x.X)
 	case *ast.CallExpr:
 		if tv, ok := a.info.Types[x.Fun]; ok && tv.IsType() && len(x.Args) == 1 {
-			return a.expr(x.Args[0])
+			d := a.expr(x.Args[0])
+			// a conversion of a possibly fractional quantity to an integer type truncates: that
+			// commutes with a change of unit only for dimensionless quantities
+			if bt, ok := tv.Type.Underlying().(*types.Basic); ok && bt.Info()&types.IsInteger != 0 {
+				if at := a.info.TypeOf(x.Args[0]); at != nil {
+					fractional := false
+					switch u := at.(type) {
+					case *types.TypeParam:
+						fractional = true
+					default:
+						if b, ok := u.Underlying().(*types.Basic); ok && b.Info()&types.IsFloat != 0 {
+							fractional = true
+						}
+					}
+					if fractional {
+						a.u.unify(d, dZero(), "truncation "+types.ExprString(x)+" to an integer type in "+a.where+" (a truncated quantity does not scale with its unit)")
+					}
+				}
+			}
+			return d
 		}
 		var args []Deg
 		for _, ar := range x.Args {
